@@ -354,6 +354,45 @@ func init() {
 					}
 				}
 			}
+			// (b2) the repository's sample inputs (thorough): single cuts with a stride, byte-at-a-time
+			if !c.Quick() {
+				for _, it := range corpus.Samples() {
+					if len(it.Inputs[0]) > 6000 || len(it.Schema) > 30000 {
+						continue
+					}
+					schema, err, _ := hx.NewSchema("s", it.Schema)
+					if err != nil {
+						continue
+					}
+					data := []byte(it.Inputs[0])
+					base := hx.Run(schema, &hx.CutReader{Data: data}, hx.Opts{MaxReads: 5000})
+					for p := 1; p < len(data); p += 1 + len(data)/300 {
+						widx++
+						if !c.Mine(widx) {
+							continue
+						}
+						cs := c09Case{Item: it.Name, Schema: it.Schema, InputB: data, Mode: "cuts", Cuts: []int{p}}
+						c.Begin(func() interface{} { return cs })
+						got := hx.Run(schema, &hx.CutReader{Data: data, Cuts: []int{p}}, hx.Opts{MaxReads: 5000})
+						c.Eval("sample:" + it.Name)
+						c.Count("schedules_sample_inputs", 1)
+						if sig, detail := c09Diff(it.Name, base, got); sig != "" {
+							report(cs, sig, trunc2(detail, 3000))
+						}
+					}
+					widx++
+					if c.Mine(widx) {
+						got, _, _ := c09RunOnce(it.Schema, data, "onebyte", nil, nil)
+						c.Eval("sample-onebyte:" + it.Name)
+						if sig, detail := c09Diff(it.Name, base, got); sig != "" {
+							report(c09Case{Item: it.Name, Schema: it.Schema, InputB: data, Mode: "onebyte"}, sig, trunc2(detail, 3000))
+						}
+					}
+					if c.TimeUp() {
+						return
+					}
+				}
+			}
 			// (c) long inputs: every single cut (quick: a stride plus the buffer boundaries), double cuts at buffer boundaries
 			for _, it := range c09Long() {
 				schema, err, _ := hx.NewSchema("s", it.Schema)
